@@ -49,6 +49,10 @@ type topo struct {
 	// Handler.ResetTS (the supported reset-ts operation), so that the running allocators are ahead
 	// of the wall clock - the situation clock differences between datacenters produce.
 	Ahead bool
+	// Skewed: after the concurrent rounds, sequential "skewed-dc" rounds in which every local
+	// allocator is first pushed ahead by a different lead (dc clocks ahead of the PD leader's by
+	// different offsets), then local / global / local timestamps are taken.
+	Skewed bool
 }
 
 // class is the coarse kind of history the cluster produced; it is part of every violation key.
@@ -67,8 +71,8 @@ func (c *cluster) class() string {
 }
 
 var topologies = map[string]topo{
-	"3dc":      {Name: "3dc", Zones: []string{"dc-1", "dc-2", "dc-3"}},
-	"2dc":      {Name: "2dc", Zones: []string{"dc-1", "dc-1", "dc-2"}},
+	"3dc":      {Name: "3dc", Zones: []string{"dc-1", "dc-2", "dc-3"}, Skewed: true},
+	"2dc":      {Name: "2dc", Zones: []string{"dc-1", "dc-1", "dc-2"}, Skewed: true},
 	"1dc":      {Name: "1dc", Zones: []string{"dc-1", "dc-1", "dc-1"}},
 	"3dc-move": {Name: "3dc-move", Zones: []string{"dc-1", "dc-2", "dc-3"}, Transfer: true},
 	"2dc-move": {Name: "2dc-move", Zones: []string{"dc-1", "dc-1", "dc-2"}, Transfer: true},
@@ -89,6 +93,7 @@ type op struct {
 	WallMs int64  `json:"wall_ms"` // wall clock at return (diagnostics in witnesses only; no oracle reads it)
 	// placement when the request began: the PD leader member and the dcs whose local allocator
 	// that member led (used to name the mechanism of a violation, never to decide one)
+	Skew     bool     `json:"skewed_round,omitempty"` // issued in a skewed-dc round (names the history in a key only)
 	PDLeader int      `json:"pd_leader"`
 	PDLeads  []string `json:"pd_leader_leads,omitempty"`
 }
@@ -415,6 +420,7 @@ func (c *cluster) settleWatch() bool {
 type requester struct {
 	c       *cluster
 	id      int
+	skew    bool
 	streams map[string]pdpb.PD_TsoClient
 	cancels []context.CancelFunc
 }
@@ -447,6 +453,7 @@ func (q *requester) do(dc string, count uint32, mode string, round int, force in
 	o := op{Mode: mode, Round: round, Target: ti}
 	o.Client, o.Member, o.DC, o.Count = q.id, ti, dc, count
 	o.PDLeader, o.PDLeads = c.pdPlacement()
+	o.Skew = q.skew
 	if m == nil {
 		o.Call = hist.Tick()
 		o.Err = "no member serves " + dc
@@ -731,6 +738,110 @@ func (c *cluster) beforeJoin(rng *rand.Rand, dcs []string) bool {
 	return true
 }
 
+// spread puts the local allocator leaders of different dcs on different members (each on a member
+// of its own zone - what pd's own priority check does within a minute): leaders on one member
+// answer a SyncMaxTS in one RPC, leaders on different members in several.
+func (c *cluster) spread(rng *rand.Rand, dcs []string) bool {
+	for _, dc := range dcs {
+		cur, _ := c.serving(dc)
+		if cur >= 0 && c.t.Zones[cur] == dc {
+			continue
+		}
+		home := -1
+		for i, z := range c.t.Zones {
+			if z == dc {
+				home = i
+				break
+			}
+		}
+		if home < 0 || cur < 0 {
+			continue
+		}
+		// a refusal usually means that pd's own priority check has already asked for this move
+		// (next-leader key present): either way let every member run its priority check and wait
+		// until a member of the dc's own zone leads it
+		c.moveTo(dc, home, rng)
+		deadline := time.Now().Add(40 * time.Second)
+		for time.Now().Before(deadline) {
+			if i, _ := c.serving(dc); i >= 0 && c.t.Zones[i] == dc {
+				break
+			}
+			for _, m := range c.members() {
+				if m != nil {
+					m.Srv.GetTSOAllocatorManager().PriorityChecker()
+				}
+			}
+			time.Sleep(300 * time.Millisecond)
+		}
+	}
+	c.waitServing(dcs, 60*time.Second)
+	on := map[int]bool{}
+	for _, dc := range dcs {
+		i, _ := c.serving(dc)
+		if i < 0 || on[i] {
+			return false
+		}
+		on[i] = true
+	}
+	return true
+}
+
+var skewLeads = []int64{1000, 2000, 4000} // ms; far below maxResetTSGap (24 h)
+
+// skewedRounds: in every round each local allocator is pushed ahead of its current time by a
+// different lead through its allocator's SetTSO (which dc gets the largest lead rotates), then one
+// requester takes a local timestamp from every dc, a global one, and local ones again. The
+// responses go into the same history and are judged by the same oracles.
+func (c *cluster) skewedRounds(rng *rand.Rand, dcs []string, n int) {
+	r := c.r
+	if !c.spread(rng, dcs) {
+		r.Count("skewed_rounds_with_colocated_leaders", 1)
+	}
+	c.note("skewed-dc rounds: %s", c.placement())
+	q := &requester{c: c, id: 600, skew: true, streams: map[string]pdpb.PD_TsoClient{}}
+	defer q.close()
+	for k := 0; k < n; k++ {
+		perm := rng.Perm(len(dcs))
+		shape := fmt.Sprintf("%s|skew|%d|", c.t.Name, k)
+		pushed := 0
+		for i, dc := range dcs {
+			lead := skewLeads[(perm[i])%len(skewLeads)]
+			shape += fmt.Sprintf("%s+%d,", dc, lead)
+			o := q.do(dc, 1, modeDirect, 1000+k, -1)
+			_, m := c.serving(dc)
+			if o.Err != "" || m == nil {
+				continue
+			}
+			a, err := m.Srv.GetTSOAllocatorManager().GetAllocator(dc)
+			if err != nil {
+				continue
+			}
+			ts := tsoutil.GenerateTS(tsoutil.GenerateTimestamp(time.Unix(0, (o.Physical+lead)*int64(time.Millisecond)), 0))
+			if err := a.SetTSO(ts); err == nil {
+				pushed++
+			}
+		}
+		r.Count("skewed_allocator_pushes", int64(pushed))
+		mode := modeDirect
+		if k%3 == 2 {
+			mode = modeGRPC
+		}
+		for _, dc := range dcs {
+			q.do(dc, []uint32{1, 10}[rng.Intn(2)], mode, 1000+k, -1)
+		}
+		g := q.do(globalDC, []uint32{1, 10}[rng.Intn(2)], mode, 1000+k, -1)
+		if g.Err != "" { // one retry: a global request can fail while an allocator leader changes
+			q.do(globalDC, 1, mode, 1000+k, -1)
+		}
+		for _, dc := range dcs {
+			q.do(dc, 1, mode, 1000+k, -1)
+		}
+		r.Eval(1)
+		r.Distinct(shape)
+		r.Count("skewed_rounds", 1)
+	}
+}
+
 // prologue is the quiet sequential phase (the shape of the repository's own test): one requester
 // alternates global and local requests with equal counts, so that the allocators are in lock-step
 // (estimate == local maximum, the "equal" branch of SyncMaxTS) before the concurrent rounds start.
@@ -889,6 +1000,9 @@ func runTopology(r *ev.Run, t topo, rng *rand.Rand, rounds int) {
 	for i, s := range shapes {
 		r.Distinct(fmt.Sprintf("%s|%d|%s", t.Name, i, s))
 	}
+	if t.Skewed && len(dcs) >= 2 {
+		c.skewedRounds(rng, dcs, r.Pick(36, 60))
+	}
 	if !c.settleWatch() {
 		skipped(r, "topology_skipped_watch_timeout", t.Name, "the suffix watch did not catch up with etcd; history not judged")
 		return
@@ -899,7 +1013,7 @@ func runTopology(r *ev.Run, t topo, rng *rand.Rand, rounds int) {
 
 func main() {
 	r := ev.New("C05", "exploration")
-	r.Rule("per topology (3 real servers, local TSO on, zone labels): rounds of {4-8 requester goroutines per dc x 5-12 requests, 1-4 global requesters x 3-7 requests, one chain worker local->global->local}, counts from {1,10,1000,2^15} (every 5th round mostly 2^15), transport per requester from {HandleTSORequest on the serving member, gRPC Tso stream, forwarded gRPC Tso stream}, 4% of requests to a random member; each topology starts with a quiet sequential phase global/local with equal counts; topologies: 3 dcs x 1 member, 2 dcs 2+1, 1 dc, a dc joining later (4 variants: placement of the running allocator relative to the PD leader forced or free, allocators moved 15 s ahead of the wall clock by the admin reset-ts operation or not), allocator moves; distinct = (topology, round index, goroutine counts per dc, round seed). Add-on: gated schedules of suffix assignment with a PD-leader change (old leader parked before its create-if-absent txn; release order by seed); distinct = (keys the two leaders were about to create, release order)")
+	r.Rule("per topology (3 real servers, local TSO on, zone labels): rounds of {4-8 requester goroutines per dc x 5-12 requests, 1-4 global requesters x 3-7 requests, one chain worker local->global->local}, counts from {1,10,1000,2^15} (every 5th round mostly 2^15), transport per requester from {HandleTSORequest on the serving member, gRPC Tso stream, forwarded gRPC Tso stream}, 4% of requests to a random member; each topology starts with a quiet sequential phase global/local with equal counts; topologies: 3 dcs x 1 member, 2 dcs 2+1, 1 dc, a dc joining later (4 variants: placement of the running allocator relative to the PD leader forced or free, allocators moved 15 s ahead of the wall clock by the admin reset-ts operation or not), allocator moves; the static 3-dc and 2-dc topologies end with 36 (thorough 60) sequential skewed-dc rounds: allocator leaders spread over different members, every local allocator pushed ahead by a different lead (1/2/4 s, rotating) through SetTSO, then local x dcs, global, local x dcs; distinct = (topology, round index, goroutine counts per dc, round seed) resp. (topology, skewed round index, lead per dc). Add-on: gated schedules of suffix assignment with a PD-leader change (old leader parked before its create-if-absent txn; release order by seed); distinct = (keys the two leaders were about to create, release order)")
 	r.Assume("the logical clock (lib/hist) orders call/return events of all requesters of the process; a suffix is taken as stored when the etcd watch has delivered it before the request's call tick (under-approximation)")
 	r.Assume("errors grant nothing and impose no constraint; clock failpoints are not used; all members run in one process on one wall clock")
 	rng := rand.New(rand.NewSource(r.ShardSeed()))
